@@ -320,6 +320,8 @@ def raw_element(k):
         g.setnil()
     if k == 6:
         e.setnil(False)
+    if k in (5, 7):
+        e.append(Element("empty"))        # an empty child without attributes is content too: it is carried
     return e
 
 
@@ -395,6 +397,13 @@ def option_checks(ctx):
                         continue
                     results[(prefixes, pretty, xstq, sortns)] = (info, env)
                     ctx.case(common.canon(meta), True)
+                    # mixed content of the caller's element: its text stands where the caller put it - before the children
+                    if "raw" in kw and kw["raw"].text is not None and kw["raw"].children:
+                        body_part = env[env.find(b"Body"):]          # (a header may hold an element of the same shape)
+                        lead, first_child = body_part.find(str(kw["raw"].text).encode()), body_part.find(b"<inner")
+                        if not (0 <= lead < first_child):
+                            ctx.fail("raw Element argument not carried intact", dict(meta, mixed_content="text after children"),
+                                     [lead, first_child], "text before the first child")
                     # what the header holds, absolutely (not only the same under every setting)
                     want_h = None
                     if isinstance(hv, dict) or (len(hv) == 2 and isinstance(hv[1], dict)):
